@@ -228,7 +228,7 @@ class FunctionVC:
                                 goal, self.prop,
                                 meta={'clause': C.clause_source_name(ccls, clause),
                                       'exception': ename, 'path': 'raise'}))
-            if mine:
+            if mine and getattr(ccls, 'cover_raises', True):
                 self.add(Obligation(self.oid(f'cover-raises-{ename}'), 'cover', And_(hyp0, actual), True, self.prop))
         allowed = tuple(c for k in raises for c in (k if isinstance(k, tuple) else (k,)))
         unchanged = getattr(ccls, 'refusal_unchanged', False)
